@@ -51,7 +51,7 @@ def run_world(world, collect_rows=False, extra_setup=None):
             res["outcome"] = "harness_error"
             res["error"] = str(e)[-1500:]
         except Exception as e:  # crash inside the system under test
-            res["outcome"] = "crash"
+            res["outcome"] = "env_limit" if getattr(ctx, "env_limit", None) else "crash"
             crash = e
             res["error"] = f"{type(e).__name__}: {e}"[:300]
             res["crash_site"] = _repo_frame(e.__traceback__)
